@@ -18,7 +18,7 @@
 // globals: `name=<value>` joined by `,`, sorted by name; a name with a leading `*` is one of the
 // identifiers pre-seeded by extensions.Init.  value: n t f i<dec> d<16 hex bits>~<hex Inspect text>
 // (dNaN~.. for every NaN) s<hex> a[v,..] m[k:v,..] (M[ for *BigMap) F<hex name|->~<hex cache key>~<0|1: defined inside a function call (Env is a call frame)>~<1|c|0: the printed
-// form parses back to the same tree / up to comments / not>
+// form parses back to the same tree / up to comments / a = up to re-association of chains of one associative operator / not>
 // X<ext> E Q ?<type>.
 package main
 
@@ -167,6 +167,9 @@ func slReparse(f object.Function) (res string) {
 	strip := func(x string) string { return strings.ReplaceAll(x, " (cmt)", "") }
 	if strip(a) == strip(b) {
 		return "c"
+	}
+	if slFlattenAssoc(a) == slFlattenAssoc(b) { // a+(b+c) printed a+b+c: saveload_assoc.go
+		return "a"
 	}
 	return "0"
 }
@@ -820,4 +823,5 @@ func saveloadGen(tier string, r *rng, emit func(string)) {
 		defs, calls := slProgram(r)
 		emit(slCase(0, defs, calls))
 	}
+	slExtGen(tier, r, emit) // globals holding extension functions: saveload_ext.go
 }
